@@ -272,9 +272,11 @@ type goFail struct {
 	In   string `json:"in"`
 	Eff  string `json:"interpolated"`
 	Out  string `json:"out"`
+	Sent bool   `json:"sent"` // also written to the trace for confirmation by the first key
 }
 
 const idStride = 10_000_000
+const confirmCap = 40
 
 func render(sk *Sink, s string) (string, error) {
 	c, ctx := sk.Render(s)
@@ -320,9 +322,11 @@ func gallery(args []string) {
 	sets := map[string][]tstr{}
 	var common []tstr
 	exhaustive(htmlAdversarial, exLen, func(s string, l int) {
-		lvl := 1
-		if l <= 3 {
+		lvl := 2
+		if l <= 2 {
 			lvl = 0
+		} else if l <= 3 {
+			lvl = 1
 		}
 		common = append(common, tstr{s, lvl, "exhaustive"})
 	})
@@ -332,7 +336,11 @@ func gallery(args []string) {
 		}
 	}
 	for i := 0; i < nRandom; i++ {
-		common = append(common, tstr{randomLong(rng, t), 0, "random"})
+		lvl := 1
+		if i < 20 {
+			lvl = 0
+		}
+		common = append(common, tstr{randomLong(rng, t), lvl, "random"})
 	}
 	for ctx := range full {
 		var l []tstr
@@ -345,7 +353,21 @@ func gallery(args []string) {
 		for _, w := range full[ctx] {
 			l = append(l, tstr{t.Concrete(w), 2, "cover"})
 		}
-		sets[ctx] = append(l, common...)
+		l = append(l, common...)
+		// de-duplicate, keeping the lowest level (the widest validation) of a string
+		idx := map[string]int{}
+		var u []tstr
+		for _, x := range l {
+			if k, ok := idx[x.s]; ok {
+				if x.lvl < u[k].lvl {
+					u[k].lvl = x.lvl
+				}
+				continue
+			}
+			idx[x.s] = len(u)
+			u = append(u, x)
+		}
+		sets[ctx] = u
 	}
 
 	// sinks and their patterns
@@ -407,7 +429,7 @@ func gallery(args []string) {
 
 	var (
 		mu                                      sync.Mutex
-		renders, goFails, drift, tlcCases, errs int
+		renders, goFails, goListed, drift, tlcCases, errs int
 		perSink                                 = map[string]int{}
 		perSrc                                  = map[string]int{}
 		samples                                 int
@@ -431,7 +453,7 @@ func gallery(args []string) {
 					pre, suf, havePS = mo[:k], mo[k+len(m):], true
 				}
 			}
-			lr, lf, ld, lt, le := 0, 0, 0, 0, 0
+			lr, lf, ld, lt, le, ll := 0, 0, 0, 0, 0, 0
 			for xi, ts := range sets[sk.Ctx] {
 				out, err := render(sk, ts.s)
 				lr++
@@ -443,10 +465,19 @@ func gallery(args []string) {
 				p := sk.Pat(v)
 				why, desc := MatchGo(out, p, v)
 				idn := (si+1)*idStride + xi
+				send := ts.lvl == 0 || (sk.Rep && (ts.lvl == 1 || thorough))
 				if why != "" {
 					lf++
-					vhlib.Emit(map[string]any{"kind": "gofail", "f": goFail{ID: idn, Sink: sk.ID, Ctx: sk.Ctx, Kind: sk.Kind, Why: why, Desc: desc,
-						In: strconv.Quote(ts.s), Eff: strconv.Quote(v), Out: strconv.Quote(out)}})
+					// every rejected case that is in the trace set anyway, plus the first confirmCap others per sink,
+					// goes to TLC for confirmation by the first key
+					if !send && lf <= confirmCap {
+						send = true
+					}
+					if send || lf <= 4*confirmCap {
+						vhlib.Emit(map[string]any{"kind": "gofail", "f": goFail{ID: idn, Sink: sk.ID, Ctx: sk.Ctx, Kind: sk.Kind, Why: why, Desc: desc,
+							In: strconv.Quote(ts.s), Eff: strconv.Quote(v), Out: strconv.Quote(out), Sent: send}})
+						ll++
+					}
 				} else if havePS && v != "" && out != pre+e.Predict(t, v)+suf {
 					ld++
 					if ld <= 2 {
@@ -454,7 +485,7 @@ func gallery(args []string) {
 							map[string]string{"sink": sk.ID, "in": strconv.Quote(ts.s), "out": strconv.Quote(out), "predicted": strconv.Quote(pre + e.Predict(t, v) + suf)})
 					}
 				}
-				if ts.lvl == 0 || (sk.Rep && (ts.lvl == 1 || thorough)) || why != "" {
+				if send {
 					pi := sp[si].nonEmpty
 					if v == "" {
 						pi = sp[si].empty
@@ -474,6 +505,7 @@ func gallery(args []string) {
 			mu.Lock()
 			renders += lr
 			goFails += lf
+			goListed += ll
 			drift += ld
 			tlcCases += lt
 			errs += le
@@ -498,7 +530,7 @@ func gallery(args []string) {
 	for c, l := range sets {
 		ctxs[c] = len(l)
 	}
-	vhlib.Summary(map[string]any{"sinks": len(ss), "renders": renders, "go_fails": goFails, "drift": drift, "tlc_cases": tlcCases,
+	vhlib.Summary(map[string]any{"sinks": len(ss), "renders": renders, "go_fails": goFails, "go_fails_listed": goListed, "drift": drift, "tlc_cases": tlcCases,
 		"shard_lines": shardN, "strings_per_context": ctxs, "strings_by_source": perSrc, "product_states_covered": states,
 		"patterns": len(pats), "edges": len(edges)})
 }
